@@ -174,6 +174,24 @@ func buildUniverse(ctx context.Context, root, name string, specs []BlockSpec) (*
 	return u, nil
 }
 
+// add builds one more block and uploads it to the universe's bucket (a block that arrives while stores are running).
+func (u *universe) add(ctx context.Context, root string, sp BlockSpec) error {
+	b, err := buildBlock(ctx, filepath.Join(root, u.name), sp)
+	if err != nil {
+		return fmt.Errorf("universe %s: %w", u.name, err)
+	}
+	if len(sp.Ext) == 0 {
+		err = block.UploadPromBlock(ctx, log.NewNopLogger(), u.bkt, b.dir, metadata.NoneFunc)
+	} else {
+		err = block.Upload(ctx, log.NewNopLogger(), u.bkt, b.dir, metadata.NoneFunc)
+	}
+	if err != nil {
+		return fmt.Errorf("upload: %w", err)
+	}
+	u.blocks = append(u.blocks, b)
+	return nil
+}
+
 func (u *universe) close() {
 	for _, b := range u.blocks {
 		_ = b.tsdb.Close()
